@@ -165,9 +165,9 @@ STUBS = ['cooperative primitives + virtual time (vlib/seqz)', 'async_raise deliv
          'phase bodies are coroutines (PhaseDescriptor.__call__ / plug injection bypassed)', 'TestState/PlugManager/records are the real objects, called atomically',
          'logging disabled; FakeClock for record timestamps']
 ASSUMPTIONS = ['preemption only between statements of the encoded functions; non-encoded callees (TestState.*, running_phase_context, PhaseState.finalize) are atomic',
-               'ABORTED is demanded only when the abort flag was set before the executor entered its final teardown (an abort that arrives later finds a finished test)']
+               'ABORTED is demanded when the abort flag was set before the plug teardown of the finalization returned (the outcome is chosen after it); an abort that arrives later finds a finished test']
 OUTSIDE = ['repeat programs in the quick tier (P3 is thorough-only); subtest programs', 'the SIGINT handler nested on the thread that executes Test.execute (D6 observation) and Test.abort_from_sig_int locking', 'more than two aborts',
-           'real-thread replay of counterexamples (replay is in the sequentialised model)', 'plug tearDown under abort (C08 covers faults, not schedules)']
+           'real-thread replay of counterexamples (replay is in the sequentialised model)', 'schedules inside PlugManager.tear_down_plugs beyond one preemption point at its start (the abort lands before it, while it is in progress, or after it; C08 covers its faults)']
 
 
 def _phase(name, **opts):
@@ -236,7 +236,12 @@ def _run(prog, p_abort, p_abort2, durs, preempt):
 
   def logged_td(self):
     LOG.append(('final-teardown-begin',))
-    return orig_td(self)
+    yield ('line', 'plug-teardown')      # plug tearDown in progress: an abort may land here ("during finalization")
+    try:
+      return orig_td(self)
+    finally:
+      LOG.append(('final-teardown-end',))
+  Z.mark(logged_td)
   plugs_mod.PlugManager.tear_down_plugs = logged_td
   pre = [(p_abort, 1)] + list(preempt)
   if p_abort2 >= 0:
@@ -386,12 +391,15 @@ def _monitor(ex, s, dead, prog, second_delay, durs):
       running.append(e[1])
     elif e[0] == 'body-end' and e[1] in running:
       running.remove(e[1])
-  # (d) outcome ABORTED (never PASS) when the abort began before the final teardown
+  # (d) outcome ABORTED (never PASS) when the test was marked aborted before the plug teardown of the
+  # finalization returned: the outcome is chosen after it, so an abort that arrives while plugs are being
+  # torn down ("during finalization") still yields ABORTED.  Later aborts find a finished test.
   if rec.outcome is None:
     return _fail('no outcome')
   idx_flag = names.index('abort-flag-set') if 'abort-flag-set' in names else len(LOG)
-  if idx_flag < idx_final and rec.outcome is not TR.Outcome.ABORTED:
-    return _fail('outcome %s' % rec.outcome)
+  idx_final_end = names.index('final-teardown-end') if 'final-teardown-end' in names else len(LOG)
+  if idx_flag < idx_final_end and rec.outcome is not TR.Outcome.ABORTED:
+    return _fail('outcome %s although the abort was registered before plug teardown finished' % rec.outcome)
   # (c) teardown nodes of an entered group still run under a single abort
   starts = [e[1] for e in LOG if e[0] == 'body-start']
   if prog in (1, 2):
